@@ -96,6 +96,7 @@ type Sim struct {
 	labels  map[uint64]int
 	roles   []string // label -> first park site
 	rng     *Rand
+	envRng  *Rand // runtime seeds (select poll order, map seeds): one stream, advanced once per grant, independent of how decisions are produced (drawn or replayed)
 	pol     Policy
 	wake    chan struct{}
 	step    int
@@ -152,7 +153,10 @@ func Activate(seed uint64, pol Policy) *Sim {
 		}
 	}
 	cur = s
-	SetRuntimeSeeds(s.rng.Uint64()|1, s.rng.Uint64()|1)
+	// A replayed run takes its decisions from the file and draws nothing for them; the runtime
+	// seeds must not depend on that, or a replay sees other map orders than the recorded run.
+	s.envRng = &Rand{s.rng.s}
+	SetRuntimeSeeds(s.envRng.Uint64()|1, s.envRng.Uint64()|1)
 	return s
 }
 
@@ -463,7 +467,7 @@ func (s *Sim) Run(cond func() bool, maxSteps int, deadline time.Duration) error 
 		s.step++
 		s.Steps++
 		s.Trace = append(s.Trace, Decision{K: "r", G: w.label, S: w.site})
-		SetRuntimeSeeds(s.rng.Uint64()|1, s.rng.Uint64()|1)
+		SetRuntimeSeeds(s.envRng.Uint64()|1, s.envRng.Uint64()|1)
 		if s.OnGrant != nil {
 			s.OnGrant(s.step, w.label, w.site)
 		}
